@@ -525,15 +525,15 @@ func (s *Scheme) Sign(c context.Context, msgHash []byte, topic string) ([]byte, 
 		s.Logger.Infof("Synchronizing on pre-signing topic %s with %v", hex.EncodeToString(syncTopic)[:8], signers)
 
 		err = sync.Synchronize(ctx, func([]uint16) {
-			defer cleanupSyncTopic()
-			defer cleanup()
-
 			s.Logger.Debugf("Time elapsed to ensure all signers for topic %s are ready: %v", topicHashText[:8], time.Since(start2))
 
 			signature, err := s.runSigningProtocol(ctx, signingProtocol, msgHash)
 			if err == nil {
 				atomic.StoreUint32(&signedSuccessfully, 1)
 			}
+			// The session must be gone by the time the caller learns its result
+			cleanupSyncTopic()
+			cleanup()
 			resultChan <- struct {
 				sig []byte
 				err error
